@@ -27,9 +27,6 @@ Definition rb_idx (r : rbuf) (k : Z) : res byte :=
   if (0 <=? k) && (k <? bn r) then Ok (nth (Z.to_nat (bn r - 1 - k)) (rb r) x00) else Panic.
 Definition rb_bytes (r : rbuf) : bytes := rev_append (rb r) [].
 
-(* data[i] as a byte *)
-Definition bidx (s : gslice) (i : Z) : res byte :=
-  if (0 <=? i) && (i <? len s) then Ok (nth (Z.to_nat i) (vis s) x00) else Panic.
 (* binary.LittleEndian.Uint32(data[off : off+4]) *)
 Definition u32_at (s : gslice) (off : Z) : res Z := d <- slice s off (off + 4) ;; u32 d 0.
 
